@@ -125,7 +125,7 @@ SPECS = {
     quick=[S('P5', 2, M_P0 | mf('REPORT_OTHER'), og('CORE', 'REPORT')), S('T1r', 2, M_T, O_T), S('P5h', 1, M_P0, O_P | og('SERIAL', 'QUERY')), S('T1t', 2, M_T, O_T | og('REPLAY')), S('T2t', 2, M_TP, O_T | og('PAYLOAD', 'MANUAL')), S('P5t', 1, M_PG, O_P | og('REACT', 'QUERY')), S('N8', 2, M_T, O_T | og('REPLAY'), flags=['--ids=0,3,4,7']), S('N5', 1, M_T, O_T), S('T1', 2, M_T, O_T | og('REPLAY')), S('T2', 2, M_TP, O_T | og('PAYLOAD', 'MANUAL', 'REPLAY', 'SERIAL')), S('T9', 2, M_TP, O_T | og('PAYLOAD')), S('T3', 3, M_T, O_T), S('P5', 1, M_PG, O_P | og('REACT', 'QUERY')), S('T4', 1, M_T, O_T), S('I1', 1, M_T | mf('INJ_DECIDE'), O_T), S('T1', 2, M_TC, og('CORE')), S('A2', 1, mf('PHASE_REQ', 'GUARD_CANCEL', 'REPORT', 'PLAN_EDIT', 'PAYLOAD'), og('CORE', 'PLAN', 'REPORT', 'MANUAL', 'SERIAL', 'REPLAY', 'COPY', 'DESTROY', 'PAYLOAD', 'LOG')), S('A1', 0, mf('PHASE_REQ', 'GUARD_CANCEL', 'REPORT', 'PLAN_EDIT', 'PAYLOAD'), og('CORE', 'PLAN', 'REPORT', 'MANUAL', 'SERIAL', 'REPLAY', 'COPY', 'DESTROY', 'PAYLOAD', 'LOG'))],
     thorough=[S('T1', 3, M_T, O_T | og('REPLAY'), W), S('T2', 3, M_TP, O_T | og('PAYLOAD', 'MANUAL', 'REPLAY', 'SERIAL'), W), S('T9', 3, M_TP, O_T | og('PAYLOAD'), W), S('T3', 4, M_T, O_T), S('T4', 2, M_T, O_T, W), S('T5', 2, M_TP, O_TALL, W), S('P5', 2, M_PG, O_P | og('REACT', 'QUERY'), W), S('I1', 2, M_T | mf('INJ_DECIDE'), O_T, W)]),
  'C07': dict(
-    quick=[S('T2', 1, M_TP, O_T | og('PAYLOAD', 'MANUAL'), flags=['--copy', '--copy-move']), S('T9b', 1, M_TP, O_T | og('PAYLOAD'), flags=['--copy']), S('P7', 0, M_P0 | mf('PAYLOAD'), O_P | og('PAYLOAD'), flags=['--copy', '--copy-move']), S('T9a', 2, M_TP, O_T | og('PAYLOAD')), S('T9b', 2, M_TP, O_T | og('PAYLOAD', 'SERIAL')), S('P7a', 1, M_P0 | mf('PAYLOAD'), O_P | og('PAYLOAD')), S('P7b', 0, M_P0 | mf('PAYLOAD'), O_P | og('PAYLOAD')), S('P7h', 1, M_P0 | mf('PAYLOAD'), O_P | og('PAYLOAD', 'SERIAL')), S('T2t', 2, M_TP, O_T | og('PAYLOAD', 'MANUAL', 'REPLAY')), S('P7t', 1, M_P0 | mf('PAYLOAD'), O_P | og('PAYLOAD')), S('P7u', 0, M_P0 | mf('PAYLOAD'), O_P | og('PAYLOAD')), S('T2', 2, M_TP | mf('COMPOSITE'), og('CORE', 'PAYLOAD', 'MANUAL')), S('T9', 2, M_TP | mf('COMPOSITE'), og('CORE', 'PAYLOAD')), S('T2', 2, M_TP2, O_T | og('PAYLOAD', 'PAYLOAD2', 'MANUAL')), S('T6', 2, M_TP2, O_T | og('PAYLOAD', 'PAYLOAD2')), S('T9', 2, M_TP2, O_T | og('PAYLOAD', 'PAYLOAD2')), S('P7', 1, M_P | mf('PAYLOAD'), O_P | og('PAYLOAD'))],
+    quick=[S('T2', 1, M_TP, O_T | og('PAYLOAD', 'PAYLOAD2', 'MANUAL', 'REPLAY', 'SERIAL')), S('P7a', 0, mf('REPORT', 'PAYLOAD'), og('CORE', 'PLAN', 'REPORT', 'PAYLOAD', 'PAYLOAD2')), S('T9', 1, M_TP, O_T | og('PAYLOAD', 'PAYLOAD2')), S('T2', 1, M_TP, O_T | og('PAYLOAD', 'MANUAL'), flags=['--copy', '--copy-move']), S('T9b', 1, M_TP, O_T | og('PAYLOAD'), flags=['--copy']), S('P7', 0, M_P0 | mf('PAYLOAD'), O_P | og('PAYLOAD'), flags=['--copy', '--copy-move']), S('T9a', 2, M_TP, O_T | og('PAYLOAD')), S('T9b', 2, M_TP, O_T | og('PAYLOAD', 'SERIAL')), S('P7a', 1, M_P0 | mf('PAYLOAD'), O_P | og('PAYLOAD')), S('P7b', 0, M_P0 | mf('PAYLOAD'), O_P | og('PAYLOAD')), S('P7h', 1, M_P0 | mf('PAYLOAD'), O_P | og('PAYLOAD', 'SERIAL')), S('T2t', 2, M_TP, O_T | og('PAYLOAD', 'MANUAL', 'REPLAY')), S('P7t', 1, M_P0 | mf('PAYLOAD'), O_P | og('PAYLOAD')), S('P7u', 0, M_P0 | mf('PAYLOAD'), O_P | og('PAYLOAD')), S('T2', 2, M_TP | mf('COMPOSITE'), og('CORE', 'PAYLOAD', 'MANUAL')), S('T9', 2, M_TP | mf('COMPOSITE'), og('CORE', 'PAYLOAD')), S('T2', 2, M_TP2, O_T | og('PAYLOAD', 'PAYLOAD2', 'MANUAL')), S('T6', 2, M_TP2, O_T | og('PAYLOAD', 'PAYLOAD2')), S('T9', 2, M_TP2, O_T | og('PAYLOAD', 'PAYLOAD2')), S('P7', 1, M_P | mf('PAYLOAD'), O_P | og('PAYLOAD'))],
     thorough=[S('T2', 3, M_TP2, O_T | og('PAYLOAD', 'PAYLOAD2', 'MANUAL'), W), S('T6', 3, M_TP2, O_T | og('PAYLOAD', 'PAYLOAD2'), W), S('T9', 3, M_TP2, O_T | og('PAYLOAD', 'PAYLOAD2'), W), S('T5', 2, M_TP2, O_T | og('PAYLOAD', 'PAYLOAD2', 'MANUAL'), W), S('P7', 2, M_P0 | mf('PAYLOAD'), O_P | og('PAYLOAD'), W), S('P2', 1, M_P0 | mf('PAYLOAD'), O_P | og('PAYLOAD', 'MANUAL'), W)]),
  'C08': dict(
     quick=[S('P6m', 0, M_P, O_P | og('MANUAL', 'SERIAL'), W), S('P7', 0, M_P0 | mf('PAYLOAD'), O_P | og('PAYLOAD'), W), S('P8c', 0, M_P0, og('CORE', 'PLAN', 'REPORT'), W), S('P5h', 1, M_P0, O_P | og('SERIAL'), W), S('P7h', 0, M_P0 | mf('PAYLOAD'), O_P | og('PAYLOAD', 'SERIAL'), W), S('P5t', 2, M_P0, O_P, W), S('P5u', 1, M_P, O_P | og('PLAN_REMOVE'), W), S('P7t', 1, M_P0 | mf('PAYLOAD'), O_P | og('PAYLOAD'), W), S('N8p', 2, M_P0 | mf('REPORT_OTHER'), O_P, W, flags=['--ids=0,7']), S('N7p', 1, M_P | mf('GUARD_REQ'), O_P | og('PLAN_REMOVE'), W, flags=['--ids=0,3,6']), S('P5', 2, M_P0, O_P, W), S('P3', 2, M_P, O_P | og('PLAN_REMOVE')), S('P6', 1, M_P, O_P | og('PLAN_REMOVE'), W), S('P5', 1, M_PG, O_P | og('REACT', 'PLAN_REMOVE'), W), S('P5', 1, M_PC, O_P, W), S('P3', 2, M_PC, O_P)],
